@@ -109,6 +109,19 @@ func (w *replayWalk) kOf(depth int) int {
 	return 2
 }
 
+const replayMapKeys = 8 // maps are built with keys among 0..7
+
+// simpleMap: integer keys, scalar values (the maps the harness can build and describe completely)
+func simpleMap(m *types.Map) bool {
+	if _, ok := isInt(m.Key()); !ok {
+		return false
+	}
+	if b, ok := m.Elem().Underlying().(*types.Basic); ok {
+		return b.Info()&(types.IsInteger|types.IsBoolean|types.IsFloat) != 0
+	}
+	return false
+}
+
 const replayMaxNodes = 6000
 const replayMaxDepth = 6
 
@@ -263,6 +276,28 @@ func (w *replayWalk) value(t types.Type, term string, depth int) *RV {
 				d.E = append(d.E, w.structAt(et, r, depth+1))
 			} else {
 				d.E = append(d.E, w.value(et, fmt.Sprintf("(select (select %s %s) %s)", w.comp(g.sc.elemComp(et)), arr, idx), depth+1))
+			}
+		}
+		return d
+	case *types.Map:
+		if !simpleMap(u) {
+			return w.opaque(t, "values of type "+typeName(t)+" (map) are left at the zero value")
+		}
+		v := w.ask(term, "Int")
+		if w.mode == "model" && (v == "" || v == "0") {
+			return &RV{K: "m", Nil: true}
+		}
+		d := &RV{K: "m"}
+		if w.mode == "model" {
+			w.nextID++
+			d.ID = w.nextID
+		}
+		dom, val := g.sc.mapComps(u)
+		for k := 0; k < replayMapKeys; k++ {
+			in := w.ask(fmt.Sprintf("(select (select %s %s) %d)", w.comp(dom), term, k), "Bool")
+			ev := w.value(u.Elem(), fmt.Sprintf("(select (select %s %s) %d)", w.comp(val), term, k), depth+1)
+			if w.mode == "model" && in == "true" {
+				d.E = append(d.E, &RV{K: "kv", E: []*RV{{K: "i", N: fmt.Sprintf("%d", k)}, ev}})
 			}
 		}
 		return d
@@ -699,6 +734,41 @@ func (p *pinner) value(t types.Type, term string, d *RV) {
 				p.value(et, fmt.Sprintf("(select (select %s %s) %s)", p.comp(g.sc.elemComp(et)), arr, idx), e)
 			}
 		}
+	case "m":
+		mt, ok := t.Underlying().(*types.Map)
+		if !ok || !simpleMap(mt) {
+			return
+		}
+		if d.Nil {
+			p.add("(= %s 0)", term)
+			return
+		}
+		ref := fmt.Sprintf("%d", d.ID)
+		if d.New {
+			ref = p.newConst(d.ID)
+			p.add("(> %s 0)", ref)
+		}
+		p.add("(= %s %s)", term, ref)
+		if d.Seen || d.Len > len(d.E) {
+			return // not described completely
+		}
+		dom, val := g.sc.mapComps(mt)
+		ks := g.sc.sortOf(mt.Key())
+		chain := fmt.Sprintf("((as const (Array %s Bool)) false)", ks)
+		for _, kv := range d.E {
+			if len(kv.E) == 2 {
+				chain = fmt.Sprintf("(store %s %s true)", chain, intTerm(kv.E[0].N))
+			}
+		}
+		domTerm := fmt.Sprintf("(select %s %s)", p.comp(dom), ref)
+		p.add("(= %s %s)", domTerm, chain)
+		lt, _ := g.sc.mapLen(ks, domTerm)
+		p.add("(= %s %d)", lt, len(d.E))
+		for _, kv := range d.E {
+			if len(kv.E) == 2 {
+				p.value(mt.Elem(), fmt.Sprintf("(select (select %s %s) %s)", p.comp(val), ref, intTerm(kv.E[0].N)), kv.E[1])
+			}
+		}
 	case "st":
 		s, ok := isStruct(t)
 		if !ok {
@@ -771,7 +841,7 @@ func (p *pinner) pointees(t types.Type, term string, d *RV) {
 		return
 	}
 	switch d.K {
-	case "p", "s":
+	case "p", "s", "m":
 		p.value(t, term, d)
 	case "st":
 		s, ok := isStruct(t)
